@@ -103,9 +103,12 @@ def oracle_case(real_types, summary, code, uses, type_mod):
         if pat in ns(code) and not uses.get(crate): f.append(("<uses>", "path of crate %s appears, uses_%s false" % (crate, crate)))
     return f
 
-def attribute(fail, findings):
+def attribute(fail, findings, dump=None):
     for fd in findings:
-        if fd["id"] == "C17-serde-json-default" and fail[0] == "<uses>" and "serde_json" in fail[1]: return fd
+        # the finding is about serde_json paths that come from DEFAULT VALUE expressions only: a space that holds a
+        # serde_json::Value (or Map) type must have the flag set by the conversion itself
+        if fd["id"] == "C17-serde-json-default" and fail[0] == "<uses>" and "serde_json" in fail[1] and \
+                not (dump and any(e.get("kind") == "json_value" for e in dump["entries"].values())): return fd
     return None
 
 def run(ctx):
@@ -127,7 +130,7 @@ def run(ctx):
             d2 = m2.diff_case(real[k], mren[k]) if mren[k] else [("render", "model failed")]
             if d or d2: disagreements.append({"case": cs[i][0], "input": cs[i][1], "api_diffs": [list(map(str, x)) for x in d[:3]], "render_diffs": [list(map(str, x))[:4] for x in d2[:3]]})
         for fl in oracle_case(ans[i]["types"], real[k], ans[i]["code"], ans[i]["uses"], cs[i][1]["settings"].get("type_mod")):
-            fd = attribute(fl, findings)
+            fd = attribute(fl, findings, ans[i]["dump"])
             if fd: known_hit[fd["id"]] = known_hit.get(fd["id"], 0) + 1
             else: new_fail.append((cs[i], fl))
     ctx.log("cases=%d ingested=%d types=%d disagreements=%d oracle_failures=%d known=%s" % (len(cs), len(ok), ntypes, len(disagreements), len(new_fail), known_hit))
